@@ -1821,6 +1821,19 @@ def timing_inputs(n, kind):
         body = "".join('#EXT-X-KEY:METHOD=AES-128,URI="k%d",KEYFORMAT="f%d"\n#EXTINF:9.009,\nseg%d.ts\n' % (i, i, i) for i in range(n))
     elif kind == "long-attribute-list":
         body = '#EXT-X-DATERANGE:ID="a",' + ",".join('X-A%d="v,%d"' % (i, i) for i in range(n * 4)) + "\n#EXTINF:1,\ns.ts\n"
+    elif kind == "byte-ranges":
+        body = "#EXT-X-BYTERANGE:100@0\n#EXTINF:1,\nv.ts\n" + "".join("#EXT-X-BYTERANGE:%d\n#EXTINF:1,\nv.ts\n" % (100 + i % 7) for i in range(n))
+    elif kind == "date-ranges":
+        body = "".join('#EXT-X-DATERANGE:ID="d%d",START-DATE="2010-02-19T14:54:23.031+08:00",DURATION=59.993,X-A="a%d",X-B=0x%04X,X-C=1.5\n#EXTINF:9.009,\ns%d.ts\n' % (i, i, i % 65536, i) for i in range(n))
+    elif kind == "unknown-tags":
+        body = "".join("#EXT-X-FOO-%d:bar\n" % i for i in range(n * 2)) + "#EXTINF:1,\ns.ts\n"
+    elif kind == "discontinuities":
+        body = "".join('#EXT-X-DISCONTINUITY\n#EXT-X-PROGRAM-DATE-TIME:2010-02-19T14:54:23.031+08:00\n#EXT-X-MAP:URI="i%d"\n#EXTINF:2.002,t\ns%d.ts\n' % (i, i) for i in range(n))
+    elif kind == "master-session-keys":
+        return "#EXTM3U\n" + "".join('#EXT-X-SESSION-KEY:METHOD=AES-128,URI="k%d",KEYFORMAT="f%d"\n' % (i, i) for i in range(n * 2))
+    elif kind == "master-iframes":
+        return "#EXTM3U\n#EXT-X-MEDIA:TYPE=VIDEO,GROUP-ID=\"v\",NAME=\"n\"\n" + \
+            "".join('#EXT-X-I-FRAME-STREAM-INF:BANDWIDTH=%d,CODECS="avc1.4d401e",RESOLUTION=1x2,VIDEO="v",URI="i%d.m3u8"\n' % (i + 1, i) for i in range(n * 2))
     elif kind == "master-groups":
         # n renditions in n groups, n variants each referencing one of them: the reference check is a product
         return "#EXTM3U\n" + "".join('#EXT-X-MEDIA:TYPE=AUDIO,GROUP-ID="g%d",NAME="n%d"\n' % (i, i) for i in range(n)) + \
@@ -1855,7 +1868,9 @@ def c05_timing(ctx):
     viol = []
     base = 200 if ctx.quick else 400
     kinds = (("bounded-keys", "linear"), ("unbounded-keys", "quadratic"), ("long-attribute-list", "linear"), ("quotes-and-separators", "linear"),
-             ("master-groups", "quadratic"), ("master-session-data", "linear"))
+             ("master-groups", "quadratic"), ("master-session-data", "linear"),
+             ("byte-ranges", "linear"), ("date-ranges", "linear"), ("unknown-tags", "linear"), ("discontinuities", "linear"),
+             ("master-session-keys", "linear"), ("master-iframes", "linear"))
     limits = {"linear": 5.5, "quadratic": 24.0}          # 4x the input: 4x / 16x the work, with slack; 8x / 64x would be the next power
     startup = _instructions(C.req("time", timing_inputs(1, "bounded-keys"), "rt_media"))
 
